@@ -348,6 +348,19 @@ export function genWatch(rng, p) {
     vars.push([A("var"), text0 + rng.pick(["type Broken = {;\n", "export const = ;\n", "interface { \n", "type X = <<;\n"]), A("broken")]);
     // blank: parses, declares nothing
     if (rng.chance(1, 2)) vars.push([A("var"), rng.pick(["", "  \n", "\n\n", "// nothing left\n", "/* gone */"]), mk([], [])]);
+    // JSDoc on declarations and on property signatures (descriptions end up in the emitted code: a rebuild must print the
+    // same ones a fresh process prints)
+    if (rng.chance(1, 2)) {
+      let k = 0;
+      const doc = (t) => t.split("\n").map((l) => {
+        if (!/^(export )?(type|interface) /.test(l)) return l;
+        let r = l;
+        if (rng.chance(1, 2)) r = r.replace(/\{ (?=[A-Za-z_"])/, () => `{ /** prop doc ${k++} */ `);
+        if (rng.chance(1, 2)) r = `/** decl doc ${k++} */\n` + r;
+        return r;
+      }).join("\n");
+      for (const v of vars) if (typeof v[1] === "string" && !isAtom(v[2], "broken")) v[1] = doc(v[1]);
+    }
     files.push([A("file"), name, ...vars]);
   }
   const ops = [];
@@ -392,6 +405,16 @@ export function genEnumLayer(rng) {
   if (r === 0) { imp = `import { ${name} } from "${spec}";`; path = name; }
   else if (r === 1) { imp = `import { ${name} as E9 } from "${spec}";`; path = "E9"; }
   else { imp = `import * as ENS from "${spec}";`; path = `ENS.${name}`; }
+  // a SECOND enum of the same name in another file, same member names, different values, and only its MEMBERS used:
+  // the two `En.A` are different types and must stay apart
+  if (rng.chance(1, 3)) {
+    files.push(["enums_b.ts", `export enum En { A = "a2", B = "b2" }\n`]);
+    const use = rng.pick([(q) => `${q}.A | { tag: ${q}.B }`, (q) => `{ tag: ${q}.B }`, (q) => `${q}.A`]);
+    const both = (q1, q2) => `{ x: ${use(q1)}; y: ${use(q2)} }`;
+    return { singleDecl: `enum En { ${members} }\nenum EnTwin { A = "a2", B = "b2" }`, singleType: both("En", "EnTwin"), files,
+      entryImport: imp + `\nimport { En as EnTwin } from "./enums_b";`, entryType: both(path, "EnTwin"),
+      extra: [{ x: "a", y: "a2" }, { x: "a", y: "a" }, { x: "a2", y: "a2" }, { x: "a2", y: "a" }, { x: { tag: "b" }, y: { tag: "b2" } }, { x: { tag: "b2" }, y: { tag: "b" } }, { x: { tag: "b" }, y: { tag: "b" } }] };
+  }
   const use = rng.pick([(q) => `${q}.A | { tag: ${q}.B }`, (q) => `{ tag: ${q}.B }`, (q) => `${q}`, (q) => `${q}.A`]);
-  return { singleDecl: `enum En { ${members} }`, singleType: use("En"), files, entryImport: imp, entryType: use(path) };
+  return { singleDecl: `enum En { ${members} }`, singleType: use("En"), files, entryImport: imp, entryType: use(path), extra: [] };
 }
